@@ -21,6 +21,9 @@ var bufferContents = []string{
 	// buffers whose position map is empty: nothing but white space; a half-typed declaration on the first line
 	"\n \n",
 	"@goht Pa",
+	// buffers of an editor that writes CRLF line ends (the Go sections of the generated code keep the carriage returns)
+	"package x\r\n\r\nvar greeting = \"hi\"\r\n\r\n@goht T(s string) {\r\n\t%p= s\r\n\t%i= greeting\r\n}\r\n",
+	"package x\r\n\r\n@goht T(s string) {\r\n\t%p= s\r\n}\r\n",
 }
 
 type docState struct {
